@@ -44,7 +44,7 @@ func (o *Obligation) smt(models bool) string {
 	b.WriteString("@@HEAD@@")
 	b.WriteString(smtPrelude)
 	for _, c := range o.fc.cmds[:o.Prefix] {
-		if o.ExpectSat && strings.HasPrefix(c, "(assert (forall") {
+		if o.ExpectSat && strings.HasPrefix(c, "(assert ") && (strings.Contains(c, "(forall ") || strings.Contains(c, "(exists ")) {
 			continue // covers are checked modulo quantified facts (they make sat answers undecidable)
 		}
 		b.WriteString(c)
